@@ -27,6 +27,23 @@ package main
 //   pointer receivers / parameters whose fields are assigned are threaded: the function returns
 //   (updated parameters..., results...)
 //
+// Round 2 (translate_alias.go, docs in the generated file's header):
+//   map[string]V            -> GMap V (association list; lookup mapGet, m[k] = v mapSet, delete mapDel,
+//                              v, ok := m[k]); `for range` over a map only when the body is a commutative
+//                              accumulation (orderDependent), otherwise refused
+//   p := X.F[i] / X.F[k] / i, p := X.finder(..) with p written through afterwards
+//                           -> captured index / key + write-back (gset / mapSet) after every write; refused
+//                              when the container is rebuilt before a later write, when another element
+//                              copy is read after the first write, or when a callee gets both p and X.F
+//   sort.Sort(T(x))         -> x := srt_T.sort x with an explicit parameter srt_T : SortOf T_Less
+//   calls listed under "oracles" (interface calls, signature check) -> explicit parameters
+//   embedded structs        -> nested structures (promoted fields = field paths); "optional" pointer
+//                              fields -> Option; "wrap" pointer fields held as one component;
+//                              "paramTypes": a second Lean view of a Go struct for one parameter
+//   variadic functions      -> the slice; f(xs...) passes it on
+//   x.F.m() with F a pointer field and m updating its receiver -> x := { x with f := .. } (trusted:
+//                              the object behind a pointer field is not shared with another field)
+//
 // Everything else is *unsupported*: the function is then emitted as `def f : Unsupported := ...`
 // (so that the equality proofs in RigoProofs/GenFuncs*.lean do not compile) and reported in the
 // `funcs` check.  Value semantics is only sound without aliasing, so the translator refuses
@@ -53,12 +70,43 @@ type funcSpec struct {
 	Owner   string            `json:"owner,omitempty"`
 	Fuel    map[string]string `json:"fuel,omitempty"` // "loop1" -> Lean expression (Int) bounding the iterations of the 1st non-range loop
 	Note    string            `json:"note,omitempty"`
+	// Oracles: source text of a call the translator cannot follow (an interface call, a signature
+	// check ...) -> name of the explicit parameter of the generated function that stands for its
+	// result.  Reviewed: the call must be free of side effects on the translated state.
+	Oracles map[string]string `json:"oracles,omitempty"`
+	// ParamTypes: parameter name -> key of funcs.json/types to use for it instead of the key of
+	// its Go type (a second Lean view of the same Go struct, e.g. GovParams with nil-able fields)
+	ParamTypes map[string]string `json:"paramTypes,omitempty"`
+	// CondAssign: emit `if c { x.f = e }` (no else, one field assignment, e free of panics) as the
+	// field-level conditional `x := { x with f := if c then e else x.f }` instead of a `do`-level if:
+	// the same semantics without a join point per statement (keeps long sequences of such
+	// statements, e.g. MergeGovParams, tractable for the proofs)
+	CondAssign bool `json:"condAssign,omitempty"`
 }
 
 type typeSpec struct {
 	Lean     string            `json:"lean"`
 	Generate bool              `json:"generate,omitempty"`
 	Fields   map[string]string `json:"fields"`
+	// Optional: pointer fields that may be nil (Lean type `Option T`)
+	Optional []string `json:"optional,omitempty"`
+	// Wrap: pointer-to-struct fields whose Lean field holds the single component `proj` of the
+	// pointed-to (generated) structure: read as `(mk x.f)`, written as `x.f := v.proj`
+	Wrap map[string]wrapSpec `json:"wrap,omitempty"`
+}
+
+type wrapSpec struct {
+	Mk   string `json:"mk"`
+	Proj string `json:"proj"`
+}
+
+func (ts typeSpec) isOptional(goField string) bool {
+	for _, o := range ts.Optional {
+		if o == goField {
+			return true
+		}
+	}
+	return false
 }
 
 type externSpec struct {
@@ -71,6 +119,17 @@ type funcsExpect struct {
 	Types   map[string]typeSpec   `json:"types"`
 	Externs map[string]externSpec `json:"externs"`
 	Funcs   []funcSpec            `json:"funcs"`
+}
+
+// owners: the owning properties ("C16" or "C16,C03")
+func (s funcSpec) owners() []string {
+	var out []string
+	for _, o := range strings.Split(s.Owner, ",") {
+		if o = strings.TrimSpace(o); o != "" {
+			out = append(out, o)
+		}
+	}
+	return out
 }
 
 func (s funcSpec) key() string {
@@ -104,6 +163,12 @@ const funcsPrelude = `/-
   Rigo.Types, byte slices -> Hex (nil = empty = ""), slices -> List (nil = empty, cap = len),
   pointers to structs -> values (Option when nil is possible), errors -> Option String,
   Go panics (panic, x/0, out-of-range index or slice, nil dereference) -> throw in G.
+  map[string]V -> GMap V (association list; only order-independent 'for range' loops over a map are
+  translated), a pointer to a slice / map element that is written through -> index / key + write-back
+  (gset / mapSet) after every write, sort.Sort(T(x)) -> an explicit parameter 'SortOf T.Less',
+  calls listed under "oracles" in funcs.json (interface calls, signature check) -> explicit parameters.
+  Trusted besides the reading of Go: distinct pointer fields / map entries / slice elements of the
+  *inputs* of a function do not alias each other.
 -/
 import Rigo.Types
 
@@ -148,6 +213,34 @@ def wrapU64 (x : Int) : Nat := (x % (two64 : Int)).toNat
 /-- ` + "`len`" + ` of a byte slice held as hex digits -/
 def hexLen (h : Hex) : Int := (byteLen h : Int)
 
+/-- 'xs[i] = x' for a slice element reached through a pointer: an index outside '0 ≤ i < len xs' panics -/
+def gset {α : Type} (xs : List α) (i : Int) (x : α) : G (List α) :=
+  if i < 0 ∨ (xs.length : Int) ≤ i then throw "index out of range" else pure (xs.set i.toNat x)
+
+/-- Go 'map[string]V': an association list (the keys are pairwise distinct in every map built by
+    'mapSet' from the empty map; new keys are inserted in key order) -/
+abbrev GMap (α : Type) := List (String × α)
+/-- 'm[k]' (second component of 'v, ok := m[k]': 'isSome') -/
+def mapGet {α : Type} (m : GMap α) (k : String) : Option α := (m.find? (fun e => e.1 == k)).map (·.2)
+/-- insertion of a new key in key order -/
+def mapIns {α : Type} : GMap α → String → α → GMap α
+  | [], k, v => [(k, v)]
+  | e :: m, k, v => if k < e.1 then (k, v) :: e :: m else e :: mapIns m k v
+/-- 'm[k] = v': the entry is replaced where it is, a new key is inserted in key order -/
+def mapSet {α : Type} (m : GMap α) (k : String) (v : α) : GMap α :=
+  if m.any (fun e => e.1 == k) then m.map (fun e => if e.1 == k then (e.1, v) else e) else mapIns m k v
+/-- 'delete(m, k)' -/
+def mapDel {α : Type} (m : GMap α) (k : String) : GMap α := m.filter (fun e => !(e.1 == k))
+
+/-- the contract of 'sort.Sort(x)' for the order 'less xs i j' (the translated 'Less' method, which
+    reads 'xs[i]' and 'xs[j]'): the result is a permutation in which no later element is 'Less'
+    than an earlier one.  Functions that sort take such a sort as an explicit parameter: Go's
+    'sort.Sort' is not stable, so nothing else may be assumed about it. -/
+structure SortOf {α : Type} (less : List α → Int → Int → G Bool) where
+  sort : List α → List α
+  perm : ∀ xs, (sort xs).Perm xs
+  sorted : ∀ xs, (sort xs).Pairwise (fun a b => less [a, b] 1 0 ≠ .ok true)
+
 /-- a whitelisted function that uses a construct outside the supported subset -/
 structure Unsupported where
   why : List String
@@ -182,10 +275,9 @@ func (pr *Prog) translateFuncsFull(expectDir string) (string, M, []string, map[s
 		problems = append(problems, "no whitelist: "+err.Error())
 	}
 	for _, s := range fe.Funcs {
-		if s.Owner != "" {
-			byOwner[s.Owner] = append(byOwner[s.Owner], []string{}...)
-			if byOwner[s.Owner] == nil {
-				byOwner[s.Owner] = []string{}
+		for _, o := range s.owners() {
+			if byOwner[o] == nil {
+				byOwner[o] = []string{}
 			}
 		}
 	}
@@ -196,8 +288,8 @@ func (pr *Prog) translateFuncsFull(expectDir string) (string, M, []string, map[s
 		n := pr.byKey[s.key()]
 		if n == nil || n.Obj == nil {
 			problems = append(problems, "whitelisted function not found: "+s.key())
-			if s.Owner != "" {
-				byOwner[s.Owner] = append(byOwner[s.Owner], "whitelisted function not found: "+s.key())
+			for _, o := range s.owners() {
+				byOwner[o] = append(byOwner[o], "whitelisted function not found: "+s.key())
 			}
 			missing = append(missing, s)
 			continue
@@ -215,6 +307,7 @@ func (pr *Prog) translateFuncsFull(expectDir string) (string, M, []string, map[s
 		}
 	}
 	sort.Strings(tnames)
+	tnames = tr.depOrder(tnames)
 	for _, k := range tnames {
 		ts := fe.Types[k]
 		st, probs := tr.genStruct(k, ts)
@@ -250,12 +343,12 @@ func (pr *Prog) translateFuncsFull(expectDir string) (string, M, []string, map[s
 		}
 		for _, p := range f.problems {
 			problems = append(problems, f.spec.key()+": "+p)
-			if f.spec.Owner != "" {
-				byOwner[f.spec.Owner] = append(byOwner[f.spec.Owner], f.spec.key()+": "+p)
+			for _, o := range f.spec.owners() {
+				byOwner[o] = append(byOwner[o], f.spec.key()+": "+p)
 			}
 		}
 		list = append(list, M{"go": f.spec.key(), "lean": "Rigo.Gen." + f.spec.Lean, "model": f.spec.Model, "theorem": f.spec.Theorem, "owner": f.spec.Owner,
-			"ok": ok, "problems": ifaceList(f.problems), "int_arith_sites": f.arith, "signature": f.sigText})
+			"ok": ok, "problems": ifaceList(f.problems), "int_arith_sites": f.arith, "signature": f.sigText, "extra_params": extrasJSON(f)})
 	}
 	for _, s := range missing {
 		b.WriteString(fmt.Sprintf("\n/-- `%s` is whitelisted but was not found in the working tree -/\ndef %s : Unsupported := unsupported [\"not found\"]\n", s.key(), s.Lean))
@@ -274,6 +367,15 @@ func (pr *Prog) translateFuncsFull(expectDir string) (string, M, []string, map[s
 		}
 	}
 	return b.String(), facts, problems, byOwner, cb.String()
+}
+
+// extrasJSON: which call / sort became which explicit parameter of the generated function
+func extrasJSON(f *trFunc) []interface{} {
+	out := []interface{}{}
+	for _, e := range f.extras {
+		out = append(out, M{"param": e.name, "type": e.typ, "stands_for": e.origin})
+	}
+	return out
 }
 
 func ifaceList(ss []string) []interface{} {
@@ -354,6 +456,19 @@ func isErrorType(t types.Type) bool {
 		}
 	}
 	return false
+}
+
+func isStringType(t types.Type) bool {
+	b, ok := t.Underlying().(*types.Basic)
+	return ok && b.Info()&types.IsString != 0
+}
+
+func mapOf(t types.Type) *types.Map {
+	if t == nil {
+		return nil
+	}
+	m, _ := t.Underlying().(*types.Map)
+	return m
 }
 
 func isSyncType(t types.Type) bool {
@@ -454,6 +569,15 @@ func (tr *translator) leanType(t types.Type) (string, error) {
 		return "(List " + e + ")", nil
 	case *types.Pointer:
 		return tr.leanType(u.Elem())
+	case *types.Map:
+		if !isStringType(u.Key()) {
+			return "", fmt.Errorf("map with key type %s (only string keys are supported)", tr.pr.typeStr(u.Key()))
+		}
+		e, err := tr.leanType(u.Elem())
+		if err != nil {
+			return "", err
+		}
+		return "(GMap " + e + ")", nil
 	}
 	return "", fmt.Errorf("type %s is outside the supported subset", tr.pr.typeStr(t))
 }
@@ -487,13 +611,85 @@ func (tr *translator) zeroValue(t types.Type) (string, error) {
 		}
 	case *types.Slice:
 		return "[]", nil
+	case *types.Map:
+		return "[]", nil
 	}
 	return "", fmt.Errorf("no zero value for %s", tr.pr.typeStr(t))
+}
+
+// depOrder: the generated structures, each after the generated structures its mapped fields mention
+func (tr *translator) depOrder(keys []string) []string {
+	isGen := map[string]bool{}
+	for _, k := range keys {
+		isGen[k] = true
+	}
+	var out []string
+	state := map[string]int{}
+	var visit func(k string)
+	var deps func(t types.Type, acc *[]string, depth int)
+	deps = func(t types.Type, acc *[]string, depth int) {
+		if depth > 6 || t == nil {
+			return
+		}
+		if n := structOf(t); n != nil {
+			*acc = append(*acc, tr.typeKey(n))
+			return
+		}
+		switch u := t.Underlying().(type) {
+		case *types.Slice:
+			deps(u.Elem(), acc, depth+1)
+		case *types.Pointer:
+			deps(u.Elem(), acc, depth+1)
+		case *types.Map:
+			deps(u.Elem(), acc, depth+1)
+		}
+	}
+	visit = func(k string) {
+		if state[k] != 0 {
+			return
+		}
+		state[k] = 1
+		base := k
+		if j := strings.Index(base, "@"); j >= 0 {
+			base = base[:j]
+		}
+		if i := strings.LastIndex(base, "."); i >= 0 {
+			if p := tr.pr.ByRel[base[:i]]; p != nil {
+				if obj := p.Types.Scope().Lookup(base[i+1:]); obj != nil {
+					if st, ok := obj.Type().Underlying().(*types.Struct); ok {
+						for j := 0; j < st.NumFields(); j++ {
+							if _, mapped := tr.exp.Types[k].Fields[st.Field(j).Name()]; !mapped {
+								continue
+							}
+							var ds []string
+							deps(st.Field(j).Type(), &ds, 0)
+							for _, d := range ds {
+								if isGen[d] {
+									visit(d)
+								}
+							}
+						}
+					}
+				}
+			}
+		}
+		state[k] = 2
+		out = append(out, k)
+	}
+	for _, k := range keys {
+		visit(k)
+	}
+	return out
 }
 
 // genStruct emits a structure for a Go struct type marked "generate" (mapped fields only)
 func (tr *translator) genStruct(key string, ts typeSpec) (string, []string) {
 	var probs []string
+	fullKey := key
+	if j := strings.Index(key, "@"); j >= 0 {
+		key = key[:j]
+	}
+	_ = fullKey
 	i := strings.LastIndex(key, ".")
 	if i < 0 {
 		return "", []string{"bad type key"}
@@ -524,6 +720,9 @@ func (tr *translator) genStruct(key string, ts typeSpec) (string, []string) {
 		if err != nil {
 			probs = append(probs, "field "+f.Name()+": "+err.Error())
 			lt = "Unsupported"
+		}
+		if ts.isOptional(f.Name()) {
+			lt = "(Option " + lt + ")"
 		}
 		b.WriteString(fmt.Sprintf("  %s : %s\n", ln, lt))
 	}
